@@ -21,7 +21,8 @@ from .values import ArrRef, ArrCell, PureArr, Masked, Quantity, is_array, ObjRef
 def subst_scalar(v, k, t):
     """Replace z3 constant k by term t in scalar v."""
     if isinstance(v, Sc):
-        return wrap(z3.substitute(v.t, (k, to_z3(t, 'int'))))
+        from .sym import deep_substitute
+        return wrap(deep_substitute(v.t, k, to_z3(t, 'int')))
     return v
 
 
